@@ -7,11 +7,19 @@ import (
 	"strconv"
 	"strings"
 	"testing"
+	"time"
+
+	"cosmossdk.io/math"
+	storetypes "cosmossdk.io/store/types"
+	sdk "github.com/cosmos/cosmos-sdk/types"
 
 	commontypes "github.com/dymensionxyz/dymension/v3/x/common/types"
 	datypes "github.com/dymensionxyz/dymension/v3/x/delayedack/types"
 	eibctypes "github.com/dymensionxyz/dymension/v3/x/eibc/types"
 	rollapptypes "github.com/dymensionxyz/dymension/v3/x/rollapp/types"
+	dymnstypes "github.com/dymensionxyz/dymension/v3/x/dymns/types"
+	irotypes "github.com/dymensionxyz/dymension/v3/x/iro/types"
+	lockuptypes "github.com/dymensionxyz/dymension/v3/x/lockup/types"
 	seqtypes "github.com/dymensionxyz/dymension/v3/x/sequencer/types"
 )
 
@@ -140,7 +148,7 @@ func c19Exec(r *Run, line string) string {
 		}
 		return strconv.FormatBool(in)
 	}
-	return "bad-op"
+	return c19Exec2(r, line, f)
 }
 
 var c19Names = []string{"a", "ab", "abc", "rollapp", "rollappx", "x", "dym", "dymension", "z"}
@@ -188,6 +196,891 @@ func c19Bytes(g *Rng) []byte {
 	return b
 }
 
+// ---- time-sorted keys ---------------------------------------------------------------------------
+
+// c19Time builds the time from seven calendar-field tokens starting at f[o]; ok=false when the tuple
+// is not a calendar date (time.Date would normalise it) or the year is negative.
+func c19Time(f []string, o int) (time.Time, bool) {
+	v := make([]int, 7)
+	for i := range v {
+		x, err := strconv.ParseUint(f[o+i], 10, 40)
+		if err != nil {
+			return time.Time{}, false
+		}
+		v[i] = int(x)
+	}
+	t := time.Date(v[0], time.Month(v[1]), v[2], v[3], v[4], v[5], v[6], time.UTC)
+	y, mo, d := t.Date()
+	h, mi, s := t.Clock()
+	if y != v[0] || int(mo) != v[1] || d != v[2] || h != v[3] || mi != v[4] || s != v[5] || t.Nanosecond() != v[6] {
+		return t, false
+	}
+	return t, true
+}
+
+func c19TimeFields(t time.Time) string {
+	t = t.UTC()
+	return fmt.Sprintf("%d %d %d %d %d %d %d", t.Year(), int(t.Month()), t.Day(), t.Hour(), t.Minute(), t.Second(), t.Nanosecond())
+}
+
+var c19Years = []int{0, 1, 9, 10, 99, 100, 999, 1000, 1969, 1970, 1999, 2000, 2024, 2025, 2038, 2100, 2262, 2263, 9998, 9999}
+var c19Nanos = []int{0, 1, 9, 10, 99, 999, 1000, 999999, 1000000, 99999999, 100000000, 500000000, 999999990, 999999998, 999999999}
+
+// c19GenTime draws a valid UTC calendar time: boundary pools for every field, leap days, ends of
+// months; `wide` additionally allows years beyond 9999 (outside the width hypothesis).
+func c19GenTime(g *Rng, wide bool) time.Time {
+	y := c19Years[g.Intn(len(c19Years))]
+	if g.Chance(30) {
+		y = g.Intn(10000)
+	}
+	if wide && g.Chance(50) {
+		y = []int{10000, 10001, 12345, 99999, 100000, 20000}[g.Intn(6)]
+	}
+	mo := 1 + g.Intn(12)
+	if g.Chance(40) {
+		mo = []int{1, 2, 9, 10, 12}[g.Intn(5)]
+	}
+	// last day of that month via normalisation of day 0 of the next month
+	last := time.Date(y, time.Month(mo)+1, 0, 0, 0, 0, 0, time.UTC).Day()
+	d := 1 + g.Intn(last)
+	if g.Chance(50) {
+		d = []int{1, 9, 10, last, last - 1, 2}[g.Intn(6)]
+	}
+	h, mi, s := g.Intn(24), g.Intn(60), g.Intn(60)
+	if g.Chance(50) {
+		h = []int{0, 9, 10, 23}[g.Intn(4)]
+		mi = []int{0, 9, 10, 59}[g.Intn(4)]
+		s = []int{0, 9, 10, 59}[g.Intn(4)]
+	}
+	ns := c19Nanos[g.Intn(len(c19Nanos))]
+	if g.Chance(30) {
+		ns = g.Intn(1000000000)
+	}
+	return time.Date(y, time.Month(mo), d, h, mi, s, ns, time.UTC)
+}
+
+// c19Near perturbs a time by one unit of one field (so that pairs differ in exactly one place)
+func c19Near(g *Rng, t time.Time) time.Time {
+	switch g.Intn(8) {
+	case 0:
+		return t
+	case 1:
+		return t.Add(time.Nanosecond)
+	case 2:
+		return t.Add(-time.Nanosecond)
+	case 3:
+		return t.Add(time.Second)
+	case 4:
+		return t.Add(-time.Minute)
+	case 5:
+		return t.AddDate(0, 0, 1)
+	case 6:
+		return t.AddDate(0, 1, 0)
+	}
+	return t.AddDate(-1, 0, 0)
+}
+
+func c19Sign(x int) int {
+	if x < 0 {
+		return -1
+	}
+	if x > 0 {
+		return 1
+	}
+	return 0
+}
+
+// c19Exec2: ops on time-sorted keys, identifiers with decimal numbers, denoms, lockup and dymns keys.
+func c19Exec2(r *Run, line string, f []string) string {
+	switch f[0] {
+	case "tfmt":
+		// tfmt <zone offset seconds> Y M D h m s ns — the time is handed over in a non-UTC location
+		t, ok := c19Time(f, 2)
+		if !ok {
+			return "invalid-date"
+		}
+		off, _ := strconv.Atoi(f[1])
+		bz := sdk.FormatTimeBytes(t.In(time.FixedZone("z", off)))
+		// monitor: the sortable format parses back to the same instant
+		back, err := sdk.ParseTimeBytes(bz)
+		if t.Year() <= 9999 && (err != nil || !back.Equal(t)) {
+			r.Violate("C19/time_format/roundtrip", fmt.Sprintf("ParseTimeBytes(FormatTimeBytes(%v)) = %v, %v", t, back, err), line)
+		}
+		if t.Year() <= 9999 && len(bz) != 29 {
+			r.Violate("C19/time_format/width", fmt.Sprintf("len %d", len(bz)), line)
+		}
+		return Hex(bz)
+	case "tcmp":
+		a, ok1 := c19Time(f, 1)
+		b, ok2 := c19Time(f, 8)
+		if !ok1 || !ok2 {
+			return "invalid-date"
+		}
+		kc := bytes.Compare(seqtypes.NoticeQueueByTimeKey(a), seqtypes.NoticeQueueByTimeKey(b))
+		tc := a.Compare(b)
+		if kc != tc {
+			if a.Year() <= 9999 && b.Year() <= 9999 {
+				r.Violate("C19/time_key_order/byte-order-differs-from-chronological", fmt.Sprintf("keys compare %d, times compare %d", kc, tc), line)
+			} else {
+				r.Hit("tcmp-year-beyond-9999-order-breaks")
+			}
+		}
+		// second number: order of the field tuples = chronological order (Go's calendar)
+		return fmt.Sprintf("%d %d", kc, tc)
+	case "nqkey":
+		t, ok := c19Time(f, 2)
+		if !ok {
+			return "invalid-date"
+		}
+		return Hex(seqtypes.NoticeQueueBySeqTimeKey(string(unhex(f[1])), t))
+	case "nqscan", "nqother":
+		T, ok := c19Time(f, 1)
+		if !ok {
+			return "invalid-date"
+		}
+		start, end := seqtypes.NoticePeriodQueueKey, storetypes.PrefixEndBytes(seqtypes.NoticeQueueByTimeKey(T))
+		var k []byte
+		if f[0] == "nqscan" {
+			t, ok := c19Time(f, 9)
+			if !ok {
+				return "invalid-date"
+			}
+			k = seqtypes.NoticeQueueBySeqTimeKey(string(unhex(f[8])), t)
+			in := bytes.Compare(start, k) <= 0 && (end == nil || bytes.Compare(k, end) < 0)
+			// monitor: the elapsed-notice scan returns the entry iff its time is not after T
+			if want := !t.After(T); in != want && T.Year() <= 9999 && t.Year() <= 9999 {
+				r.Violate("C19/notice_queue_scan/membership", fmt.Sprintf("entry at %v, scan up to %v: returned %v", t, T, in), line)
+			}
+			return strconv.FormatBool(in)
+		}
+		k = unhex(f[8])
+		in := bytes.Compare(start, k) <= 0 && (end == nil || bytes.Compare(k, end) < 0)
+		if in && !bytes.HasPrefix(k, seqtypes.NoticePeriodQueueKey) && T.Year() <= 9999 {
+			r.Violate("C19/notice_queue_scan/foreign-key-in-range", fmt.Sprintf("%x", k), line)
+		}
+		return strconv.FormatBool(in)
+	case "pend":
+		e := storetypes.PrefixEndBytes(unhex(f[1]))
+		if e == nil {
+			return "nil"
+		}
+		return Hex(e)
+	case "sqkeys":
+		a := string(unhex(f[1]))
+		return Hex(seqtypes.SequencerKey(a)) + " " + Hex(seqtypes.ProposerByRollappKey(a)) + " " + Hex(seqtypes.SuccessorByRollappKey(a))
+	}
+	return c19Exec3(r, line, f)
+}
+
+// ---- decimal identifiers, IRO denoms ----------------------------------------------------------------
+
+var c19AssetTypes = map[string]dymnstypes.AssetType{"1": dymnstypes.TypeName, "2": dymnstypes.TypeAlias}
+
+// c19BoClass: which check of BuyOrder.Validate an id stops at, for an order of the given asset type
+func c19BoClass(id string, at dymnstypes.AssetType) string {
+	bo := dymnstypes.BuyOrder{Id: id, AssetType: at, AssetId: "abc"}
+	err := bo.Validate()
+	if err == nil {
+		return "pass"
+	}
+	m := err.Error()
+	switch {
+	case strings.Contains(m, "ID of offer"):
+		return "invalid"
+	case strings.Contains(m, "mismatch type of Buy-Order ID prefix"):
+		return "mismatch"
+	}
+	return "pass" // the id checks passed; a later field of the (deliberately incomplete) order fails
+}
+
+var c19CreatedIds = map[string]string{}
+
+func c19Exec3(r *Run, line string, f []string) string {
+	u := func(i int) uint64 { v, _ := strconv.ParseUint(f[i], 10, 64); return v }
+	switch f[0] {
+	case "dec":
+		return Hex([]byte(strconv.FormatUint(u(1), 10)))
+	case "pu64":
+		v, err := strconv.ParseUint(string(unhex(f[1])), 10, 64)
+		if err != nil {
+			return "err"
+		}
+		return fmt.Sprintf("ok %d", v)
+	case "boid":
+		at := c19AssetTypes[f[1]]
+		n := u(2)
+		id, panicked := "", false
+		func() {
+			defer func() {
+				if recover() != nil {
+					panicked = true
+				}
+			}()
+			id = dymnstypes.CreateBuyOrderId(at, n)
+		}()
+		if panicked {
+			if n != 0 {
+				r.Violate("C19/buy_order_id/create-panics-on-positive-number", fmt.Sprintf("type %v n %d", at, n), line)
+			}
+			return "panic"
+		}
+		// monitors (model independent): valid; decomposes back to (type, n); one id names one (type, n)
+		if !dymnstypes.IsValidBuyOrderId(id) {
+			r.Violate("C19/buy_order_id/created-id-invalid", id, line)
+		}
+		pfx := map[string]dymnstypes.AssetType{dymnstypes.BuyOrderIdTypeDymNamePrefix: dymnstypes.TypeName, dymnstypes.BuyOrderIdTypeAliasPrefix: dymnstypes.TypeAlias}
+		back, err := strconv.ParseUint(id[2:], 10, 64)
+		if t2, ok := pfx[id[:2]]; !ok || t2 != at || err != nil || back != n {
+			r.Violate("C19/buy_order_id/roundtrip", fmt.Sprintf("id %q does not give back (%v, %d)", id, at, n), line)
+		}
+		if c19BoClass(id, at) != "pass" {
+			r.Violate("C19/buy_order_id/own-type-rejected", id, line)
+		}
+		for _, other := range c19AssetTypes {
+			if other != at && c19BoClass(id, other) != "mismatch" {
+				r.Violate("C19/buy_order_id/other-type-accepted", id, line)
+			}
+		}
+		key := fmt.Sprintf("%d/%d", at, n)
+		if prev, ok := c19CreatedIds[id]; ok && prev != key {
+			r.Violate("C19/buy_order_id/collision", fmt.Sprintf("%q names %s and %s", id, prev, key), line)
+		}
+		c19CreatedIds[id] = key
+		return Hex([]byte(id))
+	case "bovalid":
+		id := string(unhex(f[1]))
+		// monitor: a valid id without a leading zero in its number is the id the constructor hands out
+		if dymnstypes.IsValidBuyOrderId(id) && id[2] != '0' {
+			n, _ := strconv.ParseUint(id[2:], 10, 64)
+			at := dymnstypes.TypeName
+			if id[:2] == dymnstypes.BuyOrderIdTypeAliasPrefix {
+				at = dymnstypes.TypeAlias
+			}
+			if got := dymnstypes.CreateBuyOrderId(at, n); got != id {
+				r.Violate("C19/buy_order_id/canonical-valid-id-not-created", fmt.Sprintf("%q vs %q", id, got), line)
+			}
+			r.Hit("bovalid-canonical")
+		} else if dymnstypes.IsValidBuyOrderId(id) {
+			r.Hit("bovalid-valid-with-leading-zero(non-canonical, accepted by the validator)")
+		}
+		return fmt.Sprintf("%v %s %s", dymnstypes.IsValidBuyOrderId(id), c19BoClass(id, dymnstypes.TypeName), c19BoClass(id, dymnstypes.TypeAlias))
+	case "irodenom":
+		ra := string(unhex(f[1]))
+		d := irotypes.IRODenom(ra)
+		back, ok := irotypes.RollappIDFromIRODenom(d)
+		if !ok || back != ra {
+			r.Violate("C19/iro_denom/roundtrip", fmt.Sprintf("%q -> %q -> %q,%v", ra, d, back, ok), line)
+		}
+		return Hex([]byte(d))
+	case "irofrom":
+		d := string(unhex(f[1]))
+		ra, ok := irotypes.RollappIDFromIRODenom(d)
+		if !ok {
+			return "nil"
+		}
+		// monitor: a denom that decodes is exactly the denom of what it decodes to
+		if irotypes.IRODenom(ra) != d {
+			r.Violate("C19/iro_denom/decode-not-inverse", fmt.Sprintf("%q -> %q", d, ra), line)
+		}
+		return Hex([]byte(ra))
+	case "plankey":
+		return Hex(irotypes.PlanKey(fmt.Sprintf("%d", u(1))))
+	case "planrkey":
+		return Hex(irotypes.PlansByRollappKey(string(unhex(f[1]))))
+	}
+	return c19Exec4(r, line, f)
+}
+
+// ---- lockup reference keys and iterator bounds --------------------------------------------------------
+// The key builders are the real (unexported) functions of x/lockup/keeper, reached by symbol name in
+// c19_link_test.go; the iterator bounds are composed from them exactly as iterator.go does (its
+// statement listing is pinned in Lemmas/GenEqKeys.lean).
+
+func c19Lock(owner []byte, dur int64, end time.Time, denoms [][]byte, id uint64) lockuptypes.PeriodLock {
+	var coins sdk.Coins
+	for _, d := range denoms {
+		coins = append(coins, sdk.Coin{Denom: string(d), Amount: math.NewInt(1)})
+	}
+	return lockuptypes.PeriodLock{ID: id, Owner: sdk.AccAddress(owner).String(), Duration: time.Duration(dur), EndTime: end, Coins: coins}
+}
+
+// c19StoredRefs: the store keys addLockRefs/addLockRefByKey write for the lock
+func c19StoredRefs(l lockuptypes.PeriodLock, unlocking bool) ([][]byte, error) {
+	var refs [][]byte
+	var err error
+	if unlocking {
+		refs, err = lockupLockRefKeys(l)
+	} else {
+		refs, err = lockupDurationLockRefKeys(l)
+	}
+	if err != nil {
+		return nil, err
+	}
+	var out [][]byte
+	for _, k := range refs {
+		out = append(out, lockupCombineKeys(lockupCombineKeys(lockupUnlockingPrefix(unlocking), k), sdk.Uint64ToBigEndian(l.ID)))
+	}
+	return out, nil
+}
+
+func c19In(start, end, k []byte) bool {
+	return bytes.Compare(start, k) <= 0 && (end == nil || bytes.Compare(k, end) < 0)
+}
+
+func c19HexList(s string) [][]byte {
+	if s == "-" {
+		return nil
+	}
+	var out [][]byte
+	for _, x := range strings.Split(s, ",") {
+		out = append(out, unhex(x))
+	}
+	return out
+}
+
+func c19Exec4(r *Run, line string, f []string) string {
+	u := func(i int) uint64 { v, _ := strconv.ParseUint(f[i], 10, 64); return v }
+	i64 := func(i int) int64 { v, _ := strconv.ParseInt(f[i], 10, 64); return v }
+	switch f[0] {
+	case "lkcomb":
+		var parts [][]byte
+		for _, x := range f[1:] {
+			parts = append(parts, unhex(x))
+		}
+		return Hex(lockupCombineKeys(parts...))
+	case "lktime":
+		t, ok := c19Time(f, 1)
+		if !ok {
+			return "invalid-date"
+		}
+		return Hex(lockupGetTimeKey(t))
+	case "lkdur":
+		return Hex(lockupGetDurationKey(time.Duration(i64(1))))
+	case "lkrefs":
+		t, ok := c19Time(f, 4)
+		if !ok {
+			return "invalid-date"
+		}
+		ks, err := c19StoredRefs(c19Lock(unhex(f[2]), i64(3), t, c19HexList(f[11]), u(12)), f[1] == "1")
+		if err != nil {
+			return "err"
+		}
+		// monitor: the reference keys of one lock are pairwise distinct
+		seen := map[string]bool{}
+		var hx []string
+		for _, k := range ks {
+			if seen[string(k)] && len(c19HexList(f[11])) == len(uniqBytes(c19HexList(f[11]))) {
+				r.Violate("C19/lockup_ref_keys/duplicate-key-for-one-lock", Hex(k), line)
+			}
+			seen[string(k)] = true
+			hx = append(hx, Hex(k))
+		}
+		return strings.Join(hx, ",")
+	case "lkscan":
+		return c19LkScan(r, line, f)
+	case "dnkey":
+		return Hex(c19DnKey(f[1], unhex(f[2])))
+	case "dncmp":
+		ka, kb := c19DnKey(f[1], unhex(f[2])), c19DnKey(f[3], unhex(f[4]))
+		eq := bytes.Equal(ka, kb)
+		scan := bytes.HasPrefix(kb, c19DnPrefix[f[1]])
+		// monitors: equal keys only for the same (family, component); family scan stays inside the family
+		same := f[1] == f[3] && (f[2] == f[4] || f[1] == "6")
+		if eq != same {
+			r.Violate("C19/dymns_keys/collision", fmt.Sprintf("families %s,%s keys %x %x", f[1], f[3], ka, kb), line)
+		}
+		if scan != (f[1] == f[3]) {
+			r.Violate("C19/dymns_keys/family-scan-returns-other-family", fmt.Sprintf("prefix of family %s matches key %x of family %s", f[1], kb, f[3]), line)
+		}
+		return fmt.Sprintf("%v %v", eq, scan)
+	}
+	return "bad-op"
+}
+
+var c19DnPrefix = map[string][]byte{
+	"0": dymnstypes.KeyPrefixDymName, "1": dymnstypes.KeyPrefixRvlDymNamesOwnedByAccount,
+	"2": dymnstypes.KeyPrefixRvlConfiguredAddressToDymNamesInclude, "3": dymnstypes.KeyPrefixRvlFallbackAddressToDymNamesInclude,
+	"4": dymnstypes.KeyPrefixDymNameSellOrder, "5": dymnstypes.KeyPrefixAliasSellOrder, "6": dymnstypes.KeyCountBuyOrders,
+	"7": dymnstypes.KeyPrefixBuyOrder, "8": dymnstypes.KeyPrefixRvlBuyerToBuyOrderIds, "9": dymnstypes.KeyPrefixRvlDymNameToBuyOrderIds,
+	"10": dymnstypes.KeyPrefixRvlAliasToBuyOrderIds, "11": dymnstypes.KeyPrefixRollAppIdToAliases, "12": dymnstypes.KeyPrefixRvlAliasToRollAppId,
+}
+
+// c19DnKey: the real x/dymns key builder of a family
+func c19DnKey(fam string, c []byte) []byte {
+	switch fam {
+	case "0":
+		return dymnstypes.DymNameKey(string(c))
+	case "1":
+		return dymnstypes.DymNamesOwnedByAccountRvlKey(sdk.AccAddress(c))
+	case "2":
+		return dymnstypes.ConfiguredAddressToDymNamesIncludeRvlKey(string(c))
+	case "3":
+		return dymnstypes.FallbackAddressToDymNamesIncludeRvlKey(dymnstypes.FallbackAddress(c))
+	case "4":
+		return dymnstypes.SellOrderKey(string(c), dymnstypes.TypeName)
+	case "5":
+		return dymnstypes.SellOrderKey(string(c), dymnstypes.TypeAlias)
+	case "6":
+		return dymnstypes.KeyCountBuyOrders
+	case "7":
+		return dymnstypes.BuyOrderKey(string(c))
+	case "8":
+		return dymnstypes.BuyerToOrderIdsRvlKey(c)
+	case "9":
+		return dymnstypes.DymNameToBuyOrderIdsRvlKey(string(c))
+	case "10":
+		return dymnstypes.AliasToBuyOrderIdsRvlKey(string(c))
+	case "11":
+		return dymnstypes.RollAppIdToAliasesKey(string(c))
+	}
+	return dymnstypes.AliasToRollAppIdRvlKey(string(c))
+}
+
+// c19DnComp: components that could confuse families: names/aliases that are prefixes of each other,
+// components starting with another family's prefix byte or asset-type byte, empty, created buy-order ids
+func c19DnComp(g *Rng) []byte {
+	switch g.Intn(7) {
+	case 0:
+		return []byte(c19Names[g.Intn(len(c19Names))])
+	case 1:
+		return append([]byte{byte(g.Intn(14))}, []byte(c19Names[g.Intn(len(c19Names))])...)
+	case 2:
+		return append([]byte{byte(g.Intn(2))}, []byte(c19Names[g.Intn(len(c19Names))])...)
+	case 3:
+		return nil
+	case 4:
+		return []byte(dymnstypes.CreateBuyOrderId([]dymnstypes.AssetType{dymnstypes.TypeName, dymnstypes.TypeAlias}[g.Intn(2)], 1+c19Num(g)%1000))
+	case 5:
+		return c19Owner(g)
+	}
+	return c19Bytes(g)
+}
+
+func uniqBytes(xs [][]byte) [][]byte {
+	seen := map[string]bool{}
+	var out [][]byte
+	for _, x := range xs {
+		if !seen[string(x)] {
+			seen[string(x)] = true
+			out = append(out, x)
+		}
+	}
+	return out
+}
+
+// c19LkScan: lkscan <kind> <scan arguments> | <entry arguments>
+func c19LkScan(r *Run, line string, f []string) string {
+	kind := f[1]
+	bar := 0
+	for i, x := range f {
+		if x == "|" {
+			bar = i
+		}
+	}
+	if bar == 0 {
+		return "bad-op"
+	}
+	a, e := f[2:bar], f[bar+1:]
+	pu := func(s string) uint64 { v, _ := strconv.ParseUint(s, 10, 64); return v }
+	pi := func(s string) int64 { v, _ := strconv.ParseInt(s, 10, 64); return v }
+	up := lockupUnlockingPrefix
+	// entry: index of the wanted family in the real lockRefKeys output of a one-denom lock
+	entry := func(unlocking bool, owner, denom []byte, dur int64, end time.Time, id uint64, idx int) []byte {
+		ks, err := c19StoredRefs(c19Lock(owner, dur, end, [][]byte{denom}, id), unlocking)
+		if err != nil || idx >= len(ks) {
+			return nil
+		}
+		return ks[idx]
+	}
+	someOwner, someDenom := bytes.Repeat([]byte{7}, 20), []byte("adym")
+	epoch := time.Unix(0, 0).UTC()
+	var start, end, k []byte
+	var want, hyp bool // expected membership per the property; hyp=false: outside the stated hypothesis
+	hyp = true
+	switch kind {
+	case "matured", "accbefore", "denafter":
+		o := 0
+		var comp []byte
+		if kind != "matured" {
+			comp, o = unhex(a[0]), 1
+		}
+		T, ok := c19Time(a, o)
+		if !ok {
+			return "invalid-date"
+		}
+		eo := 0
+		var ecomp []byte
+		if kind != "matured" {
+			ecomp, eo = unhex(e[0]), 1
+		}
+		t, ok := c19Time(e, eo)
+		if !ok {
+			return "invalid-date"
+		}
+		id := pu(e[eo+7])
+		tk := lockupGetTimeKey(T)
+		switch kind {
+		case "matured":
+			pfx := lockupCombineKeys(up(true), lockuptypes.KeyPrefixLockTimestamp)
+			start, end = pfx, storetypes.PrefixEndBytes(lockupCombineKeys(pfx, tk))
+			k = entry(true, someOwner, someDenom, 1, t, id, 4)
+			want = !t.After(T)
+		case "accbefore":
+			pfx := lockupCombineKeys(up(true), lockuptypes.KeyPrefixAccountLockTimestamp, comp)
+			start, end = pfx, storetypes.PrefixEndBytes(lockupCombineKeys(pfx, tk))
+			k = entry(true, ecomp, someDenom, 1, t, id, 5)
+			want = bytes.Equal(comp, ecomp) && !t.After(T)
+			hyp = len(comp) == len(ecomp)
+		case "denafter":
+			pfx := lockupCombineKeys(up(true), lockuptypes.KeyPrefixDenomLockTimestamp, comp)
+			start, end = storetypes.PrefixEndBytes(lockupCombineKeys(pfx, tk)), storetypes.PrefixEndBytes(pfx)
+			k = entry(true, someOwner, ecomp, 1, t, id, 6)
+			want = bytes.Equal(comp, ecomp) && t.After(T)
+			hyp = !bytes.Contains(comp, []byte{0xff}) && !bytes.Contains(ecomp, []byte{0xff}) && len(comp) > 0
+		}
+		hyp = hyp && T.Year() <= 9999 && t.Year() <= 9999
+	case "denlonger", "accall", "accdur", "accshorter", "denall":
+		unl := a[0] == "1"
+		comp := unhex(a[1])
+		ecomp := unhex(e[0])
+		d2, id := pi(e[1]), pu(e[2])
+		var d1 int64
+		if len(a) > 2 {
+			d1 = pi(a[2])
+		}
+		c0 := func(x int64) int64 {
+			if x < 0 {
+				return 0
+			}
+			return x
+		}
+		switch kind {
+		case "denlonger":
+			pfx := lockupCombineKeys(up(unl), lockuptypes.KeyPrefixDenomLockDuration, comp)
+			start, end = lockupCombineKeys(pfx, lockupGetDurationKey(time.Duration(d1))), storetypes.PrefixEndBytes(pfx)
+			k = entry(unl, someOwner, ecomp, d2, epoch, id, 2)
+			want = bytes.Equal(comp, ecomp) && c0(d1) <= c0(d2)
+			hyp = !bytes.Contains(comp, []byte{0xff}) && !bytes.Contains(ecomp, []byte{0xff}) && len(comp) > 0
+		case "accall":
+			pfx := lockupCombineKeys(up(unl), lockuptypes.KeyPrefixAccountLockDuration, comp)
+			start, end = pfx, storetypes.PrefixEndBytes(pfx)
+			k = entry(unl, ecomp, someDenom, d2, epoch, id, 1)
+			want = bytes.Equal(comp, ecomp)
+			hyp = len(comp) == len(ecomp)
+		case "accdur":
+			pfx := lockupCombineKeys(lockupCombineKeys(up(unl), lockuptypes.KeyPrefixAccountLockDuration, comp), lockupGetDurationKey(time.Duration(d1)))
+			start, end = pfx, storetypes.PrefixEndBytes(pfx)
+			k = entry(unl, ecomp, someDenom, d2, epoch, id, 1)
+			want = bytes.Equal(comp, ecomp) && c0(d1) == c0(d2)
+			hyp = len(comp) == len(ecomp)
+		case "accshorter":
+			pfx := lockupCombineKeys(up(unl), lockuptypes.KeyPrefixAccountLockDuration, comp)
+			start, end = pfx, lockupCombineKeys(pfx, lockupGetDurationKey(time.Duration(d1)))
+			k = entry(unl, ecomp, someDenom, d2, epoch, id, 1)
+			want = bytes.Equal(comp, ecomp) && c0(d2) < c0(d1)
+			hyp = len(comp) == len(ecomp)
+		case "denall":
+			// LockIteratorDenom: exported, no callers in the hub (latent)
+			pfx := lockupCombineKeys(up(unl), lockuptypes.KeyPrefixDenomLockDuration, comp)
+			start, end = pfx, storetypes.PrefixEndBytes(pfx)
+			k = entry(unl, someOwner, ecomp, d2, epoch, id, 2)
+			want = bytes.Equal(comp, ecomp)
+			hyp = false
+		}
+	default:
+		return "bad-op"
+	}
+	if k == nil {
+		return "err"
+	}
+	in := c19In(start, end, k)
+	if in != want {
+		switch {
+		case hyp:
+			r.Violate("C19/lockup_scan/"+kind+"/membership", fmt.Sprintf("scan returned %v, expected %v", in, want), line)
+		case kind == "denall":
+			r.Hit("lockup-denom-prefix-scan-returns-extension-denom(latent: LockIteratorDenom has no callers)")
+		default:
+			r.Hit("lockup-scan-outside-hypothesis-differs/" + kind)
+		}
+	}
+	return strconv.FormatBool(in)
+}
+
+var c19Nums = []uint64{0, 1, 2, 9, 10, 11, 99, 100, 101, 999, 1000, 1001, 65535, 1 << 32, 1<<63 - 1, 1 << 63, 1<<64 - 2, 1<<64 - 1,
+	9999999999999999999, 10000000000000000000, 1844674407370955161, 18446744073709551609, 18446744073709551610}
+
+func c19Num(g *Rng) uint64 {
+	if g.Chance(60) {
+		return c19Nums[g.Intn(len(c19Nums))]
+	}
+	return g.BoundaryU64()
+}
+
+// c19IdString: candidate buy-order ids — created ones and near misses of the validator
+func c19IdString(g *Rng) string {
+	p := []string{"10", "20", "30", "1", "", "01", "00", "1o", "10 "}[g.Intn(9)]
+	if g.Chance(70) {
+		p = []string{"10", "20"}[g.Intn(2)]
+	}
+	n := strconv.FormatUint(c19Num(g), 10)
+	switch g.Intn(12) {
+	case 0:
+		n = "0" + n
+	case 1:
+		n = "000" + n
+	case 2:
+		n = n + "0" // may overflow uint64
+	case 3:
+		n = "18446744073709551616"
+	case 4:
+		n = "99999999999999999999999"
+	case 5:
+		n = []string{"", "+1", "-1", "1_0", "0x1", "1e3", " 1", "1 ", "١", "１", "1.0", "a"}[g.Intn(12)]
+	case 6:
+		n = "0"
+	case 7:
+		n = "00"
+	}
+	return p + n
+}
+
+func c19Gen3(r *Run, g *Rng, emit func(kind, line string)) {
+	switch g.Intn(9) {
+	case 0:
+		emit("dec", fmt.Sprintf("dec %d", c19Num(g)))
+	case 1:
+		s := c19IdString(g)
+		if len(s) >= 2 && g.Chance(80) {
+			s = s[2:]
+		}
+		emit("pu64", "pu64 "+Hex([]byte(s)))
+	case 2, 3:
+		emit("boid", fmt.Sprintf("boid %d %d", 1+g.Intn(2), c19Num(g)))
+	case 4, 5:
+		emit("bovalid", "bovalid "+Hex([]byte(c19IdString(g))))
+	case 6:
+		ra := c19RollappID(g)
+		if g.Chance(20) {
+			ra = []string{"", "IRO/", "/", "IRO/x_1-1", "a/b"}[g.Intn(5)]
+		}
+		emit("irodenom", "irodenom "+Hex([]byte(ra)))
+	case 7:
+		d := irotypes.IRODenom(c19RollappID(g))
+		switch g.Intn(8) {
+		case 0:
+			d = d[1:]
+		case 1:
+			d = "iro/" + d[4:]
+		case 2:
+			d = d[:g.Intn(5)]
+		case 3:
+			d = "IRO" + d[4:]
+		case 4:
+			d = "IRO/" + d
+		case 5:
+			d = "future/" + d[4:]
+		}
+		emit("irofrom", "irofrom "+Hex([]byte(d)))
+	case 8:
+		emit("plankey", fmt.Sprintf("plankey %d", c19Num(g)))
+		emit("planrkey", "planrkey "+Hex([]byte(c19RollappID(g))))
+	}
+}
+
+var c19Denoms = []string{"adym", "adymx", "adym/", "gamm/pool/1", "gamm/pool/10", "gamm/pool/11", "gamm/pool/2", "ibc/27394FB092D2ECCD56123C74F36E4C1F926001CEADA9CA97EA622B25F41E5EB2", "ibc/27394FB092D2ECCD56123C74F36E4C1F926001CEADA9CA97EA622B25F41E5EB", "a", "ab", "zz~", "zz~~"}
+var c19Durs = []int64{-1 << 63, -1, 0, 1, 255, 256, 1000000000, 3600000000000, 86400000000000, 14 * 86400000000000, 1<<63 - 1, 1 << 32, 65535, 65536}
+
+// c19Owner: address bytes of length 20 or 32 (what the hub's address verifier accepts; rarely another
+// length, which the real builders refuse), pairs sharing long prefixes, bytes 0x00/0xff included
+func c19Owner(g *Rng) []byte {
+	n := []int{20, 20, 20, 20, 32, 32, 32, 20, 32, 20, 32, 20, 32, 1, 21}[g.Intn(15)]
+	b := make([]byte, n)
+	fill := []byte{0x00, 0xff, 0x11, 0xfe}[g.Intn(4)]
+	for i := range b {
+		b[i] = fill
+	}
+	if g.Chance(60) {
+		b[n-1] = byte(g.Intn(4))
+	}
+	if g.Chance(20) {
+		b[g.Intn(n)] = 0xff
+	}
+	return b
+}
+
+func c19Gen4(r *Run, g *Rng, emit func(kind, line string)) {
+	dn := func() string { return Hex([]byte(c19Denoms[g.Intn(len(c19Denoms))])) }
+	dur := func() int64 { return c19Durs[g.Intn(len(c19Durs))] }
+	tm := func() time.Time { return c19GenTime(g, false) }
+	id := func() uint64 { return c19Num(g) }
+	switch g.Intn(17) {
+	case 0:
+		n := 1 + g.Intn(4)
+		var parts []string
+		for i := 0; i < n; i++ {
+			parts = append(parts, Hex(c19Bytes(g)))
+		}
+		emit("lkcomb", "lkcomb "+strings.Join(parts, " "))
+	case 1:
+		emit("lktime", "lktime "+c19TimeFields(c19GenTime(g, g.Chance(10))))
+	case 2:
+		d := dur()
+		if g.Chance(30) {
+			d = int64(g.U64())
+		}
+		emit("lkdur", fmt.Sprintf("lkdur %d", d))
+	case 3:
+		n := g.Intn(4)
+		var ds []string
+		for i := 0; i < n; i++ {
+			ds = append(ds, dn())
+		}
+		dl := "-"
+		if n > 0 {
+			dl = strings.Join(ds, ",")
+		}
+		emit("lkrefs", fmt.Sprintf("lkrefs %d %s %d %s %s %d", g.Intn(2), Hex(c19Owner(g)), dur(), c19TimeFields(tm()), dl, id()))
+	case 4:
+		T := tm()
+		t := c19Near(g, T)
+		if g.Chance(30) || t.Year() < 0 || t.Year() > 9999 {
+			t = tm()
+		}
+		emit("lkscan-matured", fmt.Sprintf("lkscan matured %s | %s %d", c19TimeFields(T), c19TimeFields(t), id()))
+	case 5, 6:
+		T := tm()
+		t := c19Near(g, T)
+		if g.Chance(30) || t.Year() < 0 || t.Year() > 9999 {
+			t = tm()
+		}
+		if g.Bool() {
+			a, b := c19Owner(g), c19Owner(g)
+			if g.Chance(40) {
+				b = a
+			}
+			emit("lkscan-accbefore", fmt.Sprintf("lkscan accbefore %s %s | %s %s %d", Hex(a), c19TimeFields(T), Hex(b), c19TimeFields(t), id()))
+		} else {
+			a, b := dn(), dn()
+			if g.Chance(40) {
+				b = a
+			}
+			emit("lkscan-denafter", fmt.Sprintf("lkscan denafter %s %s | %s %s %d", a, c19TimeFields(T), b, c19TimeFields(t), id()))
+		}
+	case 7, 8:
+		a, b := dn(), dn()
+		if g.Chance(40) {
+			b = a
+		}
+		emit("lkscan-denlonger", fmt.Sprintf("lkscan denlonger %d %s %d | %s %d %d", g.Intn(2), a, dur(), b, dur(), id()))
+	case 9, 10:
+		a, b := c19Owner(g), c19Owner(g)
+		if g.Chance(40) {
+			b = a
+		}
+		if g.Chance(15) && len(a) < 32 { // b extends a (different address lengths)
+			b = append(append([]byte{}, a...), make([]byte, 32-len(a))...)
+		}
+		switch g.Intn(3) {
+		case 0:
+			emit("lkscan-accall", fmt.Sprintf("lkscan accall %d %s | %s %d %d", g.Intn(2), Hex(a), Hex(b), dur(), id()))
+		case 1:
+			emit("lkscan-accdur", fmt.Sprintf("lkscan accdur %d %s %d | %s %d %d", g.Intn(2), Hex(a), dur(), Hex(b), dur(), id()))
+		case 2:
+			emit("lkscan-accshorter", fmt.Sprintf("lkscan accshorter %d %s %d | %s %d %d", g.Intn(2), Hex(a), dur(), Hex(b), dur(), id()))
+		}
+	case 11:
+		a, b := dn(), dn()
+		if g.Chance(30) {
+			b = a
+		}
+		emit("lkscan-denall", fmt.Sprintf("lkscan denall %d %s | %s %d %d", g.Intn(2), a, b, dur(), id()))
+	case 12, 13:
+		emit("dnkey", fmt.Sprintf("dnkey %d %s", g.Intn(13), Hex(c19DnComp(g))))
+	case 14, 15, 16:
+		fa, fb := g.Intn(13), g.Intn(13)
+		if g.Chance(40) {
+			fb = fa
+		}
+		if g.Chance(30) { // the two-byte-prefix neighbours
+			p := [][2]int{{4, 5}, {9, 10}, {4, 9}, {5, 10}}[g.Intn(4)]
+			fa, fb = p[0], p[1]
+		}
+		ca, cb := c19DnComp(g), c19DnComp(g)
+		if g.Chance(40) {
+			cb = ca
+		}
+		emit("dncmp", fmt.Sprintf("dncmp %d %s %d %s", fa, Hex(ca), fb, Hex(cb)))
+	}
+}
+
+// c19Gen2 emits one op of the second group.
+func c19Gen2(r *Run, g *Rng, emit func(kind, line string)) {
+	addr := func() string {
+		// bech32-looking sequencer addresses that share long prefixes
+		base := "dym1" + strings.Repeat("q", 3+g.Intn(3))
+		return Hex([]byte(base + []string{"", "a", "ab", "/", "z9"}[g.Intn(5)]))
+	}
+	switch g.Intn(7) {
+	case 0:
+		off := []int{0, 3600, -3600, 19800, 50400, -43200}[g.Intn(6)]
+		emit("tfmt", fmt.Sprintf("tfmt %d %s", off, c19TimeFields(c19GenTime(g, true))))
+	case 1:
+		wide := g.Chance(15)
+		a := c19GenTime(g, wide)
+		b := c19GenTime(g, wide)
+		if g.Chance(60) {
+			b = c19Near(g, a)
+			if b.Year() < 0 {
+				b = a
+			}
+		}
+		emit("tcmp", fmt.Sprintf("tcmp %s %s", c19TimeFields(a), c19TimeFields(b)))
+	case 2:
+		emit("nqkey", fmt.Sprintf("nqkey %s %s", addr(), c19TimeFields(c19GenTime(g, g.Chance(10)))))
+	case 3:
+		T := c19GenTime(g, false)
+		t := c19GenTime(g, false)
+		if g.Chance(70) {
+			t = c19Near(g, T)
+			if t.Year() < 0 || t.Year() > 9999 {
+				t = T
+			}
+		}
+		emit("nqscan", fmt.Sprintf("nqscan %s %s %s", c19TimeFields(T), addr(), c19TimeFields(t)))
+	case 4:
+		// keys of the other families of the sequencer store, and raw neighbours of the bounds
+		T := c19GenTime(g, false)
+		var k []byte
+		switch g.Intn(6) {
+		case 0:
+			k = seqtypes.SequencerKey("dym1qqq")
+		case 1:
+			k = seqtypes.ProposerByRollappKey(c19RollappID(g))
+		case 2:
+			k = seqtypes.SequencerByRollappByStatusKey(c19RollappID(g), "dym1qqq", seqtypes.Bonded)
+		case 3:
+			k = []byte{0x43, 0x01}
+		case 4:
+			k = []byte{0x41, 0xff}
+		case 5:
+			k = append([]byte{0x42}, c19Bytes(g)...)
+		}
+		emit("nqother", fmt.Sprintf("nqother %s %s", c19TimeFields(T), Hex(k)))
+	case 5:
+		b := c19Bytes(g)
+		if g.Chance(50) {
+			b = append(b, bytes.Repeat([]byte{0xff}, g.Intn(4))...)
+		}
+		if g.Chance(10) {
+			b = bytes.Repeat([]byte{0xff}, g.Intn(4))
+		}
+		emit("pend", "pend "+Hex(b))
+	case 6:
+		emit("sqkeys", "sqkeys "+Hex([]byte(c19RollappID(g))))
+	}
+}
+
 func TestC19(t *testing.T) {
 	r := NewRun(t, "C19")
 	r.AutoClass = true
@@ -208,8 +1101,19 @@ func TestC19(t *testing.T) {
 		ch := fmt.Sprintf("channel-%d", g.Intn(300))
 		return fmt.Sprintf("%d %s %d %d %s %d", g.Intn(2), Hex([]byte(c19RollappID(g))), g.BoundaryU64(), g.Intn(4), Hex([]byte(ch)), g.BoundaryU64())
 	}
-	n := r.N(4000, 60000)
+	n := r.N(16000, 220000)
 	for i := 0; i < n; i++ {
+		if g.Chance(70) {
+			switch g.Intn(3) {
+			case 0:
+				c19Gen2(r, g, emit)
+			case 1:
+				c19Gen3(r, g, emit)
+			case 2:
+				c19Gen4(r, g, emit)
+			}
+			continue
+		}
 		switch g.Intn(13) {
 		case 0:
 			emit("be64", fmt.Sprintf("be64 %d", g.BoundaryU64()))
